@@ -81,7 +81,7 @@ class OriginMap:
         return d
 
 
-def run_verus(path, rlimit=None, seed=None, timeout=900):
+def run_verus(path, rlimit=None, seed=None, timeout=600):
     cmd = ["verus", os.path.basename(path), "--output-json", "--time", "--error-format=json",
            "--multiple-errors", "5", "--num-threads", "4", "--triggers-mode", "silent"]
     if rlimit:
@@ -93,11 +93,13 @@ def run_verus(path, rlimit=None, seed=None, timeout=900):
         p = subprocess.run(cmd, cwd=os.path.dirname(path), capture_output=True, text=True, timeout=timeout)
         rc, so, se = p.returncode, p.stdout, p.stderr
     except subprocess.TimeoutExpired as e:
-        rc, so, se = -9, e.stdout or "", (e.stderr or "") + "\nTIMEOUT"
+        # (TimeoutExpired carries bytes even under text=True)
+        so, se = e.stdout or "", e.stderr or ""
         if isinstance(so, bytes):
-            so = so.decode()
+            so = so.decode(errors="replace")
         if isinstance(se, bytes):
-            se = se.decode()
+            se = se.decode(errors="replace")
+        rc, se = -9, se + "\nTIMEOUT"
     wall = time.time() - t0
     res = None
     try:
